@@ -194,6 +194,25 @@ func (w *World) Qualified(p int, name string, private bool) (must string, mustFa
 // the sound domain (the property statement does not fix its effect, or Common Lisp would signal a
 // name conflict whose resolution slip does not document).
 func (w *World) Apply(op Op, token string) bool {
+	if !w.apply(op, token) {
+		return false
+	}
+	// An export mark on a name the package does not define but inherits (or shares with a used package
+	// that exports it without defining it): in Common Lisp the mark then belongs to the inherited symbol
+	// or there is a name conflict; whether the package itself still exports the name is left open.
+	for p, pk := range w.P {
+		for n, e := range pk.Exp {
+			if e == Yes && pk.Def[n] == nil {
+				if v := w.View(p, n); len(v.Direct)+len(v.Trans) > 0 || v.Pending {
+					pk.Exp[n] = Unknown
+				}
+			}
+		}
+	}
+	return true
+}
+
+func (w *World) apply(op Op, token string) bool {
 	if op.A < 0 || op.A >= len(w.P) {
 		return false
 	}
@@ -230,7 +249,7 @@ func (w *World) Apply(op Op, token string) bool {
 		return true
 	case "export":
 		switchCur()
-		pk.Exp[op.N] = Yes
+		pk.Exp[op.N] = Yes // (normalised to Unknown by Apply when the name is only inherited)
 		return true
 	case "unexport":
 		switchCur()
